@@ -55,7 +55,12 @@ Definition h_step (s : hstate) (o : hop) : hstate :=
       let lid := h_next s in
       mkH (lid + 1) (fupd lid [] (h_lists s)) (h_vers s) (fupd h lid (h_blocks s))
   | HNew h (Some lid) =>
-      mkH (h_next s) (h_lists s) (h_vers s) (fupd h lid (h_blocks s))      (* the caller's list is adopted *)
+      (* the items of the caller's list are taken over into a list of the block's own (the same item objects) *)
+      match h_lists s lid with
+      | Some its => let nl := h_next s in
+                    mkH (nl + 1) (fupd nl its (h_lists s)) (h_vers s) (fupd h nl (h_blocks s))
+      | None => s
+      end
   | HDecode h k =>
       let lid := h_next s in
       let its := zseq (lid + 1) k in
